@@ -71,3 +71,18 @@ Theorem C16_replace_variant_refuted : exists tr s,
   run_replace init tr = Some s /\ ~ incl (kept tr) (names (jobs s) ++ names (bakl s)) /\ In 1 (orphans s).
 Proof. exact replace_variant_refuted. Qed.
 Print Assumptions C16_replace_variant_refuted.
+
+(* what `lock : option proc` stands for: the fcntl lock of the file named xp/<name>/lock.  The lock
+   belongs to the file, not to the name; since the code never removes the file, all processes
+   contend for one file and at most one holds it ...                                              *)
+Theorem C16_lockfile_exclusive : forall tr s i j p q, lf_run lf_init tr = Some s ->
+  lf_holder s i = Some p -> lf_holder s j = Some q -> i = j /\ p = q.
+Proof. exact lockfile_exclusive. Qed.
+Print Assumptions C16_lockfile_exclusive.
+
+(* ... whereas an __exit__ that also unlinks the lock file after releasing it (not the code) lets a
+   waiter acquire the nameless old file while a later contender creates and locks a fresh one   *)
+Theorem C16_unlink_variant_refuted : exists tr s i j p q, lf_run_unlink lf_init tr = Some s /\
+  lf_holder s i = Some p /\ lf_holder s j = Some q /\ p <> q.
+Proof. exact unlink_variant_refuted. Qed.
+Print Assumptions C16_unlink_variant_refuted.
